@@ -39,6 +39,9 @@ fn process_plane(input: &mut dyn Read, width: u32, height: u32, output: &mut [u8
 					replen = revcode;
 					collen = 0;
 				}
+				if indexw + collen as usize + replen as usize > width {
+					return Err(Error::RdpError(RdpError::new(RdpErrorKind::InvalidData, "segment longer than the scan line")))
+				}
 				while collen > 0 {
 					color = input.read_u8()? as i8;
 					output[out as usize] = color as u8;
@@ -64,6 +67,9 @@ fn process_plane(input: &mut dyn Read, width: u32, height: u32, output: &mut [u8
 				if (revcode <= 47) && (revcode >= 16) {
 					replen = revcode;
 					collen = 0;
+				}
+				if indexw + collen as usize + replen as usize > width {
+					return Err(Error::RdpError(RdpError::new(RdpErrorKind::InvalidData, "segment longer than the scan line")))
 				}
 				while collen > 0 {
 					x = input.read_u8()?;
